@@ -77,8 +77,8 @@ def differential(case, pid, stages=plans.STAGES, with_compute=True):
             except Exception as e:
                 failures.append(Failure("stage-exec-raises", f"executing the {stage} plan raised {type(e).__name__}: {e}", stage=stage, exc=e).record())
                 break
-            d = equiv(res, ref, order=fl.ordered, index=fl.indexed, dtypes="exact")
-            if d is not None and alt is not None and equiv(res, alt, order=fl.ordered, index=fl.indexed, dtypes="exact") is None:
+            d = equiv(res, ref, order=fl.ordered, index=fl.indexed, dtypes="promo")
+            if d is not None and alt is not None and equiv(res, alt, order=fl.ordered, index=fl.indexed, dtypes="promo") is None:
                 d = None
                 classes.append("accepted_global_head_tail")
             if d is not None:
@@ -94,8 +94,8 @@ def differential(case, pid, stages=plans.STAGES, with_compute=True):
             except Exception as e:
                 failures.append(Failure("compute-raises", f"compute() raised {type(e).__name__}: {e}", stage="compute", exc=e).record())
             else:
-                d = equiv(res, ref, order=fl.ordered, index=fl.indexed, dtypes="exact")
-                if d is not None and alt is not None and equiv(res, alt, order=fl.ordered, index=fl.indexed, dtypes="exact") is None:
+                d = equiv(res, ref, order=fl.ordered, index=fl.indexed, dtypes="promo")
+                if d is not None and alt is not None and equiv(res, alt, order=fl.ordered, index=fl.indexed, dtypes="promo") is None:
                     d = None
                 if d is not None:
                     failures.append(Failure("compute-mismatch", f"compute() differs from unoptimized: {d}", stage="compute", extra={"bucket_hint": "compute"}).record())
